@@ -25,7 +25,7 @@ func c13Candidates(lvl int) []string {
 		gen.Seq(gen.Lit("1.0", "1"), gen.Lit("-a", "-rc"), gen.Lit(".a", ".1", "-b", ".b.1")),
 	)
 	m := gen.Magnitudes
-	g = gen.Alt(g, gen.Seq(gen.Lit("1.", "1.a", "1.rc.", "1.0.", "1-a."), m), gen.Seq(m, gen.Lit("", ".1", ".a")))
+	g = gen.Alt(g, gen.Seq(gen.Lit("1.", "1.a", "1.rc.", "1.0.", "1-a."), m), gen.Seq(m, gen.Lit("", ".1", ".a")), gen.Seq(gen.Lit("1.", "1.a", "1.rc.", "1.0."), gen.Alt(gen.LeadingZeros, gen.Lit("7", "8", "9", "10", "11"))))
 	for _, v := range ref.GemVectors {
 		g = append(g, v[0], v[1])
 	}
